@@ -53,6 +53,11 @@ class Protocol(Component):
         if event.name.endswith('_success'):
             source_event = args[0]
 
+            # every Protocol instance listens on the result channel: only
+            # the one that received the call answers it
+            if getattr(source_event, 'node_protocol', self) is not self:
+                return
+
             if getattr(args[0], 'node_call_id', False) is not False:
                 self.send_result(source_event.node_call_id, source_event.value)
 
@@ -115,6 +120,7 @@ class Protocol(Component):
             event.success_channels = ('node_result',)
             event.node_call_id = id
             event.node_sock = self.__sock
+            event.node_protocol = self
 
             self.fire(event, *event.channels)
 
